@@ -4,8 +4,10 @@ Part 1: internal/strings Quote / Unquote at byte level.
 -/
 import Gms.Model.JsonQuote
 import Gms.Model.JsonPath
+import Gms.Model.JsonNum
 import Gms.Generated.C32
 import Gms.Lemmas.C32Expected
+import Gms.Lemmas.JsonNum
 
 namespace Gms.JsonQuote
 
@@ -668,7 +670,9 @@ theorem facts_match :
     ∧ Gms.Generated.C32.shape_updateArray = Expected.shape_updateArray
     ∧ Gms.Generated.C32.shape_updateObjectTreatAsArray = Expected.shape_updateObjectTreatAsArray
     ∧ Gms.Generated.C32.shape_parseIndex = Expected.shape_parseIndex
-    ∧ Gms.Generated.C32.sortKeysLess = Expected.sortKeysLess := by
+    ∧ Gms.Generated.C32.sortKeysLess = Expected.sortKeysLess
+    ∧ Gms.Generated.C32.shape_printNumber = Expected.shape_printNumber
+    ∧ Gms.Generated.C32.shape_convertNumber = Expected.shape_convertNumber := by
   decide
 
 /-- **Quote/Unquote round trip, for every byte string**: `Unquote(Quote(s))` succeeds and returns
@@ -829,5 +833,74 @@ functions but not by the lookup). -/
 theorem finding_extract_last_index_unsupported :
     (match lookup [.idx .last] (.arr [.num 1, .num 2]) with | .err => true | _ => false) = true ∧
     isFound (specWalk [.idx .last] (.arr [.num 1, .num 2])) = some (.num 2) := ⟨rfl, rfl⟩
+
+/-! ### JSON numbers: literal → held number → printed text → held number -/
+
+open Gms.JsonNum in
+/-- **Number round trip.** For every number literal with an integral value (any magnitude, plain digits
+or with `.`/`e`/`E`): the number the document holds (`convertJsonNumbers`) is printed
+(`writeMarshalledValue`: `FormatInt` when the double fits int64, else the shortest digits) as a text
+that is held, when parsed again, as a number of exactly the same value — away from the listed
+class `big_float_reparsed_as_integer`.
+
+The full statement `∀ l, (reparse (convert l)).val = (convert l).val` is FALSE on the unchanged code:
+`finding_big_float_reparsed_as_integer`. -/
+theorem number_roundtrip_partial (l : Lit) (h : bigFloatReparsedAsInteger (convert l) = false) :
+    (reparse (convert l)).val = (convert l).val :=
+  reparse_val_partial (convert l) (convert_wf l) h
+
+open Gms.JsonNum in
+/-- Integer-typed numbers (int64 / uint64) always round trip exactly, and so does every double inside
+the int64 range (`FormatInt` prints its exact value): the defect class needs a double beyond it. -/
+theorem number_roundtrip_in_range (n : Num) (hw : n.wf)
+    (h : ∀ neg mag, n = .f64 neg mag → fitsI64 (signed neg mag) = true) :
+    (reparse n).val = n.val := by
+  apply reparse_val_partial n hw
+  cases n with
+  | i64 v => rfl
+  | u64 v => rfl
+  | f64 neg mag =>
+    have hf := h neg mag rfl
+    unfold bigFloatReparsedAsInteger
+    dsimp only
+    have he : signed neg mag = toInt64 (signed neg mag) := by unfold toInt64; rw [if_pos hf]
+    rw [decide_eq_false (fun hne => hne he)]
+    simp only [Bool.false_and]
+
+open Gms.JsonNum in
+/-- A double beyond the int64 range is printed by the `FormatFloat` branch, with digits that parse
+back to the same double (never through `FormatInt(int64(val))`, whose operand is -2^63 there). -/
+theorem big_float_printed_shortest (neg : Bool) (mag : Nat) (hw : roundF64 mag = mag)
+    (h : fitsI64 (signed neg mag) = false) :
+    printNum (.f64 neg mag) = (neg, shortest mag) ∧ roundF64 (shortest mag) = mag := by
+  refine ⟨?_, shortest_rt hw⟩
+  unfold printNum
+  dsimp only
+  have hne : signed neg mag ≠ toInt64 (signed neg mag) := by
+    intro he
+    unfold toInt64 at he
+    rw [h] at he
+    simp only [Bool.false_eq_true, if_false] at he
+    rw [he] at h; revert h; decide
+  rw [if_neg hne]
+
+open Gms.JsonNum in
+/-- Finding (unchanged code): the double 2^63 (`9223372036854775808.0`) prints as `9223372036854776000`,
+which is held as the uint64 9223372036854776000 — a different number. -/
+theorem finding_big_float_reparsed_as_integer :
+    ∃ l : Lit, (reparse (convert l)).val ≠ (convert l).val :=
+  ⟨⟨false, 9223372036854775808, 0, true⟩, by decide⟩
+
+open Gms.JsonNum in
+example : convert ⟨false, 1, 19, true⟩ = .f64 false (10 ^ 19)
+    ∧ bigFloatReparsedAsInteger (convert ⟨false, 1, 19, true⟩) = false
+    ∧ printNum (.f64 false (10 ^ 19)) = (false, 10 ^ 19)
+    ∧ reparse (.f64 false (10 ^ 19)) = .u64 (10 ^ 19) := by decide
+open Gms.JsonNum in
+example : bigFloatReparsedAsInteger (convert ⟨true, 602214076, 15, true⟩) = false
+    ∧ fitsI64 (signed true (roundF64 (602214076 * 10 ^ 15))) = false
+    ∧ convert ⟨false, 18446744073709551616, 0, false⟩ = .f64 false (2 ^ 64)
+    ∧ convert ⟨false, 18446744073709551615, 0, false⟩ = .u64 (2 ^ 64 - 1)
+    ∧ printNum (.f64 true 0) = (false, 0) := by decide
 
 end Gms.C32
